@@ -499,6 +499,25 @@ def check(case, acc, tmp):
                 except (Exception, SystemExit) as e:
                     raise _Unloadable(e)
             run_variant(bad, 'E', E_split, e_drop, e_keep)
+            if len(case['req']) == 1 and len(ax_ids) >= 2:
+                # the file at the same path is replaced by one whose axis has the same length but another order,
+                # and the same request is made again: nothing remembered about the old file may be used
+                try:
+                    t2 = D.build(spec_of(case))
+                    t2 = t2.sort_order([str(i) for i in t2.ids(axis)][::-1], axis=axis)
+                    base2 = snapshot(t2)
+                    acc.trans += 1
+                    with h5py.File(h5, 'r') as f:
+                        Table.from_hdf5(f, ids=list(want), axis=axis, subset_with_metadata=False)
+                    with h5py.File(h5, 'w') as f:
+                        t2.to_hdf5(f, GENS[spec_of(case).get('gen', 0)])
+                    e_b2 = expect(base2, axis, want, False, with_md=False)
+                    run_variant(bad, 'B', B(list(want)), e_b2, None, ':same-path-rewritten')
+                    acc.count('clause:same-path-rewritten')
+                finally:
+                    # the cached artefact is restored for the cases that follow
+                    with h5py.File(h5, 'w') as f:
+                        D.build(spec_of(case)).to_hdf5(f, GENS[spec_of(case).get('gen', 0)])
     else:
         acc.count('skipped:hdf5-variants')
 
@@ -514,6 +533,13 @@ def check(case, acc, tmp):
                         e_drop, e_keep)),
                     ('lines', lambda b_: run_variant(
                         b_, 'C', lambda: parse_table(text.splitlines(True), ids=list(want), axis=axis),
+                        e_drop, e_keep)),
+                    # the requested ids in other containers the documentation allows ("iterable")
+                    ('lines-ndarray', lambda b_: run_variant(
+                        b_, 'C', lambda: parse_table(text.splitlines(True), ids=np.array(list(want)), axis=axis),
+                        e_drop, e_keep)),
+                    ('handle-tuple', lambda b_: run_variant(
+                        b_, 'C', lambda: parse_table(io.StringIO(text), ids=tuple(want), axis=axis),
                         e_drop, e_keep))], 'both-input-forms')
 
         def D_member(name):
